@@ -810,4 +810,92 @@ theorem stop_run (ops : List AOp) (a : Actor) (h : Alive a) (hs : StopPend a) :
         | true => have := p3 he; simp only [ite_true]; omega
         | false => simp only [Bool.false_eq_true, ite_false]; omega
 
+
+/-! ### from the trace to the state: accepted kills / stops are sticky in the C03 automaton -/
+
+/-- A stop that found the stop port open. -/
+def isStopAcc : Ev → Bool
+  | .stopRet _ _ true => true
+  | _ => false
+
+theorem next_sticky {s s1 : C03.St} {e : Ev} (h : C03.next s e = .ok s1) :
+    ((s.killed = true ∨ C03.isKillAcc e = true) → s1.killed = true) ∧
+    ((s.stopAcc = true ∨ isStopAcc e = true) → s1.stopAcc = true) := by
+  cases e <;> simp only [C03.next] at h <;> (repeat' split at h) <;>
+    first
+      | (cases h; done)
+      | (cases h; simp_all [C03.isKillAcc, isStopAcc]; done)
+
+theorem accepts_sticky {tr : List Ev} {s s' : C03.St} (h : accepts C03.next s tr = .ok s') :
+    ((s.killed = true ∨ ∃ x ∈ tr, C03.isKillAcc x = true) → s'.killed = true) ∧
+    ((s.stopAcc = true ∨ ∃ x ∈ tr, isStopAcc x = true) → s'.stopAcc = true) := by
+  induction tr generalizing s with
+  | nil =>
+    simp only [accepts_nil] at h; cases h
+    constructor
+    · rintro (hk | ⟨x, hx, _⟩)
+      · exact hk
+      · cases hx
+    · rintro (hk | ⟨x, hx, _⟩)
+      · exact hk
+      · cases hx
+  | cons e es ih =>
+    rw [accepts_cons] at h
+    cases hn : C03.next s e with
+    | error c => simp [hn] at h
+    | ok s1 =>
+      simp only [hn] at h
+      obtain ⟨k1, t1⟩ := next_sticky hn
+      obtain ⟨k2, t2⟩ := ih h
+      constructor
+      · rintro (hk | ⟨x, hx, hf⟩)
+        · exact k2 (Or.inl (k1 (Or.inl hk)))
+        · rcases List.mem_cons.mp hx with rfl | hx
+          · exact k2 (Or.inl (k1 (Or.inr hf)))
+          · exact k2 (Or.inr ⟨x, hx, hf⟩)
+      · rintro (hk | ⟨x, hx, hf⟩)
+        · exact t2 (Or.inl (t1 (Or.inl hk)))
+        · rcases List.mem_cons.mp hx with rfl | hx
+          · exact t2 (Or.inl (t1 (Or.inr hf)))
+          · exact t2 (Or.inr ⟨x, hx, hf⟩)
+
+theorem Reach.dead_of_done {a : Actor} (h : Reach a) (hd : a.phase = .done) : Dead a := by
+  rcases h with h | h | h
+  · rw [h.1] at hd; cases hd
+  · exact absurd hd h.2.1
+  · exact h
+
+/-- After a trace containing an accepted kill the actor is `Dead` or the kill is still in the signal port. -/
+theorem kill_event_pending (id : Nat) (ops0 : List AOp)
+    (hk : ∃ e ∈ trace id ops0, C03.isKillAcc e = true) :
+    Dead ((Actor.init id).run ops0).1 ∨
+    (Alive ((Actor.init id).run ops0).1 ∧ ((Actor.init id).run ops0).1.sigVal = true) := by
+  obtain ⟨s, hacc, hinv⟩ := C03.run_sim ops0 (Actor.init id) {} (C03.inv_init id)
+  have hr := reach_run ops0 _ (reach_init id)
+  have hkilled : s.killed = true := (accepts_sticky hacc).1 (Or.inr hk)
+  rcases hinv with hd | ⟨hx, _, _⟩
+  · exact Or.inl (hr.dead_of_done hd)
+  · have hs := hx.kill.mp hkilled
+    exact Or.inr ⟨hr.alive_of_sig hs, hs⟩
+
+/-- After a trace containing an accepted stop the actor is `Dead`, or the stop is still in the stop port, or
+`post_stop` is open. -/
+theorem stop_event_pending (id : Nat) (ops0 : List AOp)
+    (hk : ∃ e ∈ trace id ops0, isStopAcc e = true) :
+    Dead ((Actor.init id).run ops0).1 ∨
+    (Alive ((Actor.init id).run ops0).1 ∧ StopPend ((Actor.init id).run ops0).1) := by
+  obtain ⟨s, hacc, hinv⟩ := C03.run_sim ops0 (Actor.init id) {} (C03.inv_init id)
+  have hr := reach_run ops0 _ (reach_init id)
+  have hst : s.stopAcc = true := (accepts_sticky hacc).2 (Or.inr hk)
+  rcases hinv with hd | ⟨_, _, hso⟩
+  · exact Or.inl (hr.dead_of_done hd)
+  · by_cases hp : ∃ r, ((Actor.init id).run ops0).1.phase = .postStop r
+    · obtain ⟨r, hpr⟩ := hp
+      rcases hr with h | h | h
+      · rw [h.1] at hpr; cases hpr
+      · exact Or.inr ⟨h, Or.inr ⟨r, hpr⟩⟩
+      · exact Or.inl h
+    · have hs := hso (fun r hpr => hp ⟨r, hpr⟩) hst
+      exact Or.inr ⟨hr.alive_of_stop hs, Or.inl hs⟩
+
 end Life.Liveness
